@@ -1152,5 +1152,16 @@ def rule_r13(ctx) -> RuleResult:
     return rr
 
 
+def rule_r14(ctx) -> RuleResult:
+    """The round trip parses twice on one page context: `parse(to_wikitext(parse(x)))`.  The second parse reads the tree of the
+    first only if it starts from the same parser state -- a mode flag the first parse left set (an unclosed `<pre>` sets
+    `pre_parse`) makes the re-parse return plain text where the first returned nodes (seed C19-10B).  Shared with C01.R7."""
+    from ..core.report import shared
+    from . import c01
+
+    return shared(c01.rule_r7(ctx), "C19.R14", "the re-parse of the serialised text starts from the same parser state as the first parse (shared with C01.R7)",
+                  "the second parse of the round trip runs in the mode the first one ended in and returns a different tree", min_instances=5)
+
+
 def run(ctx) -> list:
-    return [rule_r1(ctx), rule_r2(ctx), rule_r3(ctx), rule_r4(ctx), rule_r5(ctx), rule_r6(ctx), rule_r7(ctx), rule_r8(ctx), rule_r9(ctx), rule_r10(ctx), rule_r11(ctx), rule_r12(ctx), rule_r13(ctx)]
+    return [rule_r1(ctx), rule_r2(ctx), rule_r3(ctx), rule_r4(ctx), rule_r5(ctx), rule_r6(ctx), rule_r7(ctx), rule_r8(ctx), rule_r9(ctx), rule_r10(ctx), rule_r11(ctx), rule_r12(ctx), rule_r13(ctx), rule_r14(ctx)]
